@@ -1,9 +1,16 @@
 From Coq Require Import Extraction ExtrOcamlBasic.
-From RV Require Import Base.Bytes Base.SortedMap Btree.Inst.
+From RV Require Import Base.Bytes Base.SortedMap Btree.Inst Btree.Tree Btree.Read Btree.Mutator Btree.Shape Btree.ShapeInst
+                       Btree.Scan Btree.ShapeScan Btree.Cursor Btree.CursorSplice Btree.ShapeCursor Gen.Consts.
 Extraction Language OCaml.
 Extraction "../ocaml/gen/c18_model.ml"
   SortedMap.get SortedMap.insert SortedMap.remove SortedMap.range
   SortedMap.iter_next SortedMap.iter_next_back SortedMap.first SortedMap.last SortedMap.len SortedMap.sortedb
   SortedMap.seek_lower SortedMap.seek_upper SortedMap.cursor_map SortedMap.cursor_step
-  Inst.key_cmp Inst.key_of_u64_bytes Inst.key_size
-  Bytes.le_decode Bytes.le_encode.
+  Inst.key_cmp Inst.key_of_u64_bytes Inst.key_size Inst.val_size
+  Bytes.le_decode Bytes.le_encode
+  (* shape mode: the splice model on the decorated tree, its logical twin, the checker *)
+  ShapeCursor.s_session ShapeCursor.s_splice_insert_run CursorSplice.t_session CursorSplice.open_pos CursorSplice.gap_pos
+  Shape.erase_tree Shape.sempty Shape.order_for Shape.alloc_for Shape.keys_size ShapeScan.sb_leaves
+  ShapeInst.key_sep_left ShapeInst.key_sep_bytes ShapeInst.key_sep_str ShapeInst.m_tree_checkb
+  Tree.abs_tree Mutator.leaf_required Mutator.leaf_bytes Mutator.branch_required
+  Consts.INSERT_FLUSH_BYTES.
